@@ -16,6 +16,8 @@ import NeumannModel.Paths.AlgoModel
     kcore <etype|->                           -> ok <node:core,...> (sorted by node) | empty
     triangles <etype|-> <undirected 0|1>      -> ok <count> <node:count,...> (sorted by node) | empty
     scc <etype|->                             -> ok <n.n;n;...> (members sorted, groups by smallest member) | empty
+    artic <etype|->                           -> ok <sorted node ids> | empty
+    bridges <etype|->                         -> ok <a.b;a.b;...> (a < b, sorted) | empty
     edgesof <n> <out|in|both>                 -> ok <sorted edge ids> | nonode <id>
     nbrs <n> <out|in|both> <etype|-> <nodeconds> <edgeconds> -> ok <sorted ids> | nonode <id>
     wpath <s> <t>                             -> ok <cost> n=<ids> e=<ids> | none | neg <edge id> | nonode <id>
@@ -24,6 +26,7 @@ import NeumannModel.Paths.AlgoModel
     trav <s> <out|in|both> <maxdepth> <etype|-> <nodeconds> <edgeconds> -> ok <sorted ids> | nonode <id>
     vpaths <s> <t> <min> <max> <out|in|both> <etypes|-> <cycles 0|1> <nodeconds> <edgeconds>
                                               -> ok <count> <n.n.n/e.e;...> | nonode <id>
+    vpathsk <same nine arguments as vpaths> <max_paths>  -> the same, first <max_paths> matches only
   conds: `-` or comma separated `<op>:<int>` with op ∈ eq ne lt le gt ge.
 -/
 open Neumann Neumann.Proto Neumann.Paths
@@ -84,6 +87,13 @@ def insertGroup (x : List Nat) : List (List Nat) → List (List Nat)
   | [] => [x]
   | y :: ys => if x.headD 0 ≤ y.headD 0 then x :: y :: ys else y :: insertGroup x ys
 
+/-- lexicographic insertion of two-element lists -/
+def insertGroup2 (x : List Nat) : List (List Nat) → List (List Nat)
+  | [] => [x]
+  | y :: ys =>
+    if x.headD 0 < y.headD 0 || (x.headD 0 == y.headD 0 && x.getLastD 0 ≤ y.getLastD 0) then x :: y :: ys
+    else y :: insertGroup2 x ys
+
 def showPartition (gs : List (List Nat)) : String :=
   ";".intercalate (((gs.map sortNats).foldr insertGroup []).map dots)
 
@@ -121,7 +131,7 @@ def pathsStep (g : Graph) (line : String) : Graph × String :=
           | .error e => (g, showErr e))
       | _, _, _, _ => bad
   | ["allwpaths", s, t, mp, cap] => match s.toNat?, t.toNat?, mp.toNat?, cap.toNat? with
-      | some s, some t, some mp, some cap => (match findAllWeightedPaths g mp cap s t with
+      | some s, some t, some mp, some cap => (match findAllWeightedPathsFast g mp cap s t with
           | .ok r => (g, s!"ok {r.total} {r.paths.length} " ++ showPaths r.paths)
           | .error e => (g, showErr e))
       | _, _, _, _ => bad
@@ -145,6 +155,16 @@ def pathsStep (g : Graph) (line : String) : Graph × String :=
       | _, _ => bad
   | ["scc", et] => match parseOptNat et with
       | some et => if g.nodes.isEmpty then (g, "empty") else (g, "ok " ++ showPartition (sccComponents g et))
+      | none => bad
+  | ["artic", et] => match parseOptNat et with
+      | some et => if g.nodes.isEmpty then (g, "empty") else (g, "ok " ++ showNats (sortNats (articulationPoints g et)))
+      | none => bad
+  | ["bridges", et] => match parseOptNat et with
+      | some et =>
+        if g.nodes.isEmpty then (g, "empty")
+        else
+          let bs := ((bridgePairs g et).map fun p => [p.1, p.2])
+          (g, "ok " ++ (if bs.isEmpty then "-" else ";".intercalate ((bs.foldr insertGroup2 []).map dots)))
       | none => bad
   | ["edgesof", n, d] => match n.toNat?, parseDir d with
       | some n, some d => (match edgesOf g d n with
@@ -178,6 +198,17 @@ def pathsStep (g : Graph) (line : String) : Graph × String :=
           | some r => (g, "ok " ++ showNats (sortNats r))
           | none => (g, s!"nonode {s}"))
       | _, _, _, _, _, _ => bad
+  | ["vpathsk", s, t, mn, mx, d, ets, cyc, nc, ec, k] =>
+      match s.toNat?, t.toNat?, mn.toNat?, mx.toNat?, parseDir d, parseTypes ets, cyc.toNat?, parseConds nc, parseConds ec with
+      | some s, some t, some mn, some mx, some d, some ets, some cyc, some nc, some ec =>
+        let cfg : VarCfg := { minHops := mn, maxHops := mx, dir := d, etypes := ets, allowCycles := cyc != 0 }
+        (match k.toNat? with
+          | none => bad
+          | some k =>
+            match findVariablePathsCapped g cfg (mkFlt g nc ec) s t k with
+            | .ok ps => (g, s!"ok {ps.length} " ++ ";".intercalate (ps.map fun p => dots p.nodes ++ "/" ++ dots p.edges))
+            | .error e => (g, showErr e))
+      | _, _, _, _, _, _, _, _, _ => bad
   | ["vpaths", s, t, mn, mx, d, ets, cyc, nc, ec] =>
       match s.toNat?, t.toNat?, mn.toNat?, mx.toNat?, parseDir d, parseTypes ets, cyc.toNat?, parseConds nc, parseConds ec with
       | some s, some t, some mn, some mx, some d, some ets, some cyc, some nc, some ec =>
